@@ -15,7 +15,7 @@ C = {
  "C03": ("Structural theorems for an arbitrary carrier (bit-exact at binary64): f[j+1]=f[j]+r[j], r=fs/L, b=f/r; real-number theorems for r*L=fs, start, monotonicity, Nyquist and the bmin rounding slack.", "7/C03",
          "vectorised and new_ltf bmin slack by direct oracle only; b and f0 compared within 4 ulp", T_SCHED),
  "C04": ("Theorems: K nearest integer (capped), starts within half a sample, reported overlap = realised overlap, log spacing where unclamped, Jdes search sound and terminating for any scheduler behaviour, forced plans exact.", "7/C04",
-         "monotonicity of L/K and K>=Kdes (under the attainability condition) are proved for ltf/lpsd and swept for vectorised/new_ltf; the 10% vectorised/iterative agreement is an empirical statement decided by the oracle sweep", T_SCHED),
+         "monotonicity of L/K is proved for ltf/lpsd and for the vectorised planner (any sorted positive grid); K>=Kdes under the attainability condition is proved for ltf/lpsd; new_ltf monotonicity and the 10% vectorised/iterative agreement (an empirical statement) are decided by the oracle sweep", T_SCHED),
  "C06": ("ENBW, power-spectrum and density normalisation, channel-scaling and fs-relabelling laws proved on the regenerated attribute table; window sums, scaling laws and sinusoid calibration checked on real analyses.", "7/C06",
          "the sinusoid response and |ps/(A^2/2)-1| <= 2rho+rho^2 (rho = |W(2w0)|/S1) are proved for any real window (Sinusoid.v); PARTIAL: that rho is below 10^(-P/20) for a Kaiser window is the side-lobe claim of C12, swept not proved", T_GEN_A),
  "C09": ("coherence in [0,1] from Cauchy-Schwarz, coherence 1 when |XY|^2=XX*YY, swap symmetry, GyyCx+GyyRx=Gyy, GyySx=Gyy(1-coh), auto-in-pair — proved on the regenerated table.", "7/C09",
